@@ -61,6 +61,41 @@ func memberGuarded(p *Prog, fn *ssa.Function, ins ssa.Instruction, val ssa.Value
 	return ok
 }
 
+// memberGuardedDeep: as memberGuarded; when the value is a parameter of an unexported helper (selectTransport(id)),
+// the membership test may sit at the call sites instead: every static call of the helper is then guarded for its argument.
+func memberGuardedDeep(p *Prog, fn *ssa.Function, ins ssa.Instruction, val ssa.Value, depth int) bool {
+	if memberGuarded(p, fn, ins, val) {
+		return true
+	}
+	prm, isP := canonVal(val).(*ssa.Parameter)
+	if !isP || depth >= 2 || prm.Parent() != fn || fn.Parent() != nil || (fn.Object() != nil && fn.Object().Exported()) {
+		return false
+	}
+	idx := -1
+	for i, q := range fn.Params {
+		if q == prm {
+			idx = i
+		}
+	}
+	sites := p.staticCallSites(fn)
+	if idx < 0 || len(sites) == 0 {
+		return false
+	}
+	for _, site := range sites {
+		cc := instrCall(site)
+		if cc == nil || idx >= len(cc.Args) {
+			return false
+		}
+		if _, isCall := site.(*ssa.Call); !isCall {
+			return false // go / defer: not evaluated on the found edge in any useful sense
+		}
+		if !memberGuardedDeep(p, site.Parent(), site, cc.Args[idx], depth+1) {
+			return false
+		}
+	}
+	return true
+}
+
 func sameLeaves(p *Prog, a, b ssa.Value) bool {
 	la, lb := p.Leaves(a, provOpts{}), p.Leaves(b, provOpts{})
 	return len(la) > 0 && joinLeaves(la) == joinLeaves(lb)
@@ -127,7 +162,7 @@ func ruleC19U1(r *Run) {
 			continue
 		}
 		n++
-		r.Check(name+" selection is a member", memberGuarded(p, fn, st, st.Val), p.pos(st.Pos()), name, "the id written to currentTransportID must have been looked up in transportMap (comma-ok) on the found edge; an unknown or empty id makes the next Write call a method on a nil interface")
+		r.Check(name+" selection is a member", memberGuardedDeep(p, fn, st, st.Val, 0), p.pos(st.Pos()), name, "the id written to currentTransportID must have been looked up in transportMap (comma-ok) on the found edge; an unknown or empty id makes the next Write call a method on a nil interface")
 	}
 	if n < 2 {
 		r.Undecided("stores to currentTransportID", fmt.Sprintf("%d found", n))
@@ -192,8 +227,50 @@ func ruleC19U2(r *Run) {
 		acts := false
 		allInstrs(fn, func(ins ssa.Instruction) {
 			n := callName(ins)
-			if strings.HasPrefix(n, "/transport.") && inLoop(ins) && (strings.HasSuffix(n, ".Close") || strings.HasSuffix(n, ".CloseWithStatus") || strings.HasSuffix(n, "BytesCounterValue")) {
+			isAct := func(n string) bool {
+				return strings.HasPrefix(n, "/transport.") && (strings.HasSuffix(n, ".Close") || strings.HasSuffix(n, ".CloseWithStatus") || strings.HasSuffix(n, "BytesCounterValue"))
+			}
+			if isAct(n) && inLoop(ins) {
 				acts = true
+			}
+			// the per-member action moved into a helper that is called inside the loop with the member
+			if cc := instrCall(ins); cc != nil && inLoop(ins) {
+				if cal := cc.StaticCallee(); cal != nil && p.Analysed(cal) && cal.Blocks != nil {
+					for i, a := range cc.Args {
+						if i >= len(cal.Params) || !hasLeafPrefix(p.Leaves(a, provOpts{}), "rangeval:") {
+							continue
+						}
+						prm := ssa.Value(cal.Params[i])
+						onEvery := true
+						found := false
+						allInstrs(cal, func(x ssa.Instruction) {
+							if c2 := instrCall(x); c2 != nil && c2.IsInvoke() && isAct(callName(x)) {
+								recv := canonVal(c2.Value)
+								if ta, isTA := recv.(*ssa.TypeAssert); isTA {
+									recv = canonVal(ta.X)
+								}
+								if ex, isEx := recv.(*ssa.Extract); isEx {
+									if ta, isTA := ex.Tuple.(*ssa.TypeAssert); isTA {
+										recv = canonVal(ta.X)
+									}
+								}
+								if recv == prm {
+									found = true
+								}
+							}
+						})
+						// every return of the helper is preceded by one of the actions
+						if w := reachesFromEntryWithout(cal, isReturn, func(x ssa.Instruction) bool {
+							c2 := instrCall(x)
+							return c2 != nil && c2.IsInvoke() && isAct(callName(x))
+						}); w != nil {
+							onEvery = false
+						}
+						if found && onEvery {
+							acts = true
+						}
+					}
+				}
 			}
 		})
 		r.Check(name+" visits every member", !early && acts, p.pos(fn.Pos()), name, fmt.Sprintf("early exit from the range loop: %v; acts on each member inside the loop: %v", early, acts))
